@@ -78,12 +78,16 @@ Clauses(r, gs, cs, n) ==
                         /\ r.done[1].val = a.v
                    ELSE r.done = <<>>
         noexc == r.exc = ""
+        findroot == /\ Len(r.roots) = Len(newg)
+                    /\ \A s \in 1..Len(newg) : r.roots[s] = newg[s].ds
+        mixrej == \A i \in 1..Len(r.mix) : r.mix[i].raised
     IN (IF imm THEN <<>> ELSE <<"Imm">>) \o (IF wrap THEN <<>> ELSE <<"Wrap">>)
        \o (IF ntype THEN <<>> ELSE <<"NewType">>) \o (IF qmd THEN <<>> ELSE <<"Qmd">>)
        \o (IF noexec THEN <<>> ELSE <<"ExecWhileBuilding">>) \o (IF onecall THEN <<>> ELSE <<"OneCall">>)
        \o (IF routed THEN <<>> ELSE <<"Routed">>) \o (IF cleanast THEN <<>> ELSE <<"CleanAst">>)
        \o (IF title THEN <<>> ELSE <<"Title">>) \o (IF hashq THEN <<>> ELSE <<"QmdHash">>)
        \o (IF deliver THEN <<>> ELSE <<"Deliver">>) \o (IF noexc THEN <<>> ELSE <<"Raised">>)
+       \o (IF findroot THEN <<>> ELSE <<"FindRoot">>) \o (IF mixrej THEN <<>> ELSE <<"MixNotRejected">>)
 
 Init == l = 1 /\ g = <<>> /\ calls = <<>> /\ nds = 0
 Next ==
